@@ -42,7 +42,8 @@ func c11Paths(repr string, ok bool, want []byte) (string, string) {
 		}
 	}
 	q, _ := json.Marshal(repr)
-	doc := []byte("values:\n  s:\n    fn::secret:\n      ciphertext: " + string(q) + "\n  t:\n    fn::secret:\n      ciphertext: " + c11OtherQ + "\n")
+	// the same text three times (a decoder that remembers texts must remember their rejection too), then a valid one
+	doc := []byte("values:\n  s:\n    fn::secret:\n      ciphertext: " + string(q) + "\n  s2:\n    fn::secret:\n      ciphertext: " + string(q) + "\n  l:\n    - fn::secret:\n        ciphertext: " + string(q) + "\n  t:\n    fn::secret:\n      ciphertext: " + c11OtherQ + "\n")
 	judge := func(r *c11Recorder) string {
 		// the second secret (always valid) must arrive; the first only if accepted
 		var mine [][]byte
